@@ -51,6 +51,14 @@ fn objects(max_tokens: usize) -> Vec<T> {
         v.push(T::Lit(lf.clone(), "".into(), XSD_INTEGER.into()));
         v.push(T::Lit(lf, "".into(), CUSTOM_DT.into()));
     }
+    // datatypes that resemble xsd:string (same fragment in another namespace, other case, a longer
+    // fragment): a serializer that recognises xsd:string by anything less than the whole IRI would
+    // write these as simple literals, which parse back as xsd:string
+    for lf in lexical_forms(1) {
+        for dt in ["http://e.org/ns#string", "http://www.w3.org/2001/XMLSchema#String", "http://www.w3.org/2001/XMLSchema#string2", "http://www.w3.org/2001/XMLSchema#"] {
+            v.push(T::Lit(lf.clone(), "".into(), dt.into()));
+        }
+    }
     // the language-tag lattice (1, 2, 3 and 4 subtags, numeric region, variant, private use) on the
     // lexical forms of <= 1 token
     for lf in lexical_forms(1) {
